@@ -168,6 +168,11 @@ func (m *Machine) runRegion(f *frame, b, prev, stop *ssa.BasicBlock) []exit {
 			return []exit{{st: m.cur, env: f.env, pred: prev}}
 		}
 		f.visits[b.Index]++
+		if la, ok := m.loopAssume[f.fn.Name()]; ok && f.visits[b.Index] > la {
+			// stated bound: executions that iterate more often are outside the claim (assumption, not obligation)
+			m.stats["loop_bound_assumed:"+f.fn.Name()]++
+			m.fail("loop bound assumed")
+		}
 		if f.visits[b.Index] > m.unwind {
 			m.oblige(m.cbool(false), "unwinding bound exceeded in "+f.fn.String(), "")
 			m.fail("unwind")
@@ -522,16 +527,63 @@ func (m *Machine) mergeVals(gs []*Cond, vals []Value) Value {
 			n.vs[k] = m.mergeVals(gs, col)
 		}
 		return n
-	case IfaceV:
-		var col []Value
-		for _, v := range vals {
-			iv := v.(IfaceV)
-			if iv.typ != v0.typ {
-				panic("merge of interfaces with different dynamic types")
-			}
-			col = append(col, iv.v)
+	case BigV:
+		// merged big integers: a fresh integer symbol defined per arm
+		z := linSym(m.fresh("zb"))
+		for i, v := range vals {
+			m.defs = append(m.defs, cImp(gs[i], cCmp("=", z, m.bigLin(v.(BigV)))))
 		}
-		return IfaceV{typ: v0.typ, v: m.mergeVals(gs, col)}
+		return BigV{lin: z}
+	case Ptr:
+		// pointers into the same object that differ only in constant positions are not merged (no symbolic pointers)
+		panic("cannot merge distinct pointers")
+	case IfaceV:
+		// interfaces may be nil on some arms (typically errors): keep the non-nil dynamic type and a nil-condition
+		var typ types.Type
+		for _, v := range vals {
+			if t := v.(IfaceV).typ; t != nil {
+				if typ != nil && !types.Identical(typ, t) {
+					panic("merge of interfaces with different dynamic types")
+				}
+				typ = t
+			}
+		}
+		if typ == nil {
+			return IfaceV{}
+		}
+		var col []Value
+		var cg []*Cond
+		var nilc *Cond
+		for k, v := range vals {
+			iv := v.(IfaceV)
+			var nc *Cond
+			if iv.typ == nil {
+				nc = gs[k]
+			} else {
+				col = append(col, iv.v)
+				cg = append(cg, gs[k])
+				if iv.nilc != nil {
+					nc = cAnd(gs[k], iv.nilc)
+				}
+			}
+			if nc != nil {
+				if nilc == nil {
+					nilc = nc
+				} else {
+					nilc = m.cor(nilc, nc)
+				}
+			}
+		}
+		var inner Value
+		func() {
+			defer func() {
+				if r := recover(); r != nil {
+					inner = col[0]
+				}
+			}()
+			inner = m.mergeVals(cg, col)
+		}()
+		return IfaceV{typ: typ, v: inner, nilc: nilc}
 	}
 	panic(fmt.Sprintf("cannot merge values of type %T", vals[0]))
 }
